@@ -209,9 +209,9 @@ class Ctx:
         m = re.search(r"Invariant (\S+) is violated", out)
         if m:
             violated = m.group(1)
-        m2 = re.search(r"(Temporal properties were violated|Action property (\S+) is violated|Deadlock reached)", out)
+        m2 = re.search(r"(Temporal properties were violated|Temporal property (\S+) was violated|Action property (\S+) is violated|Deadlock reached)", out)
         if m2 and not violated:
-            violated = m2.group(2) or m2.group(1)
+            violated = m2.group(2) or m2.group(3) or m2.group(1)
         ok = (rc == 0 and "Model checking completed. No error has been found." in out)
         res = dict(module=module, cfg=cfg, ok=ok, generated=g, distinct=dist, violated=violated,
                    wall_s=round(dt, 1), dir=d, rc=rc)
